@@ -36,6 +36,7 @@ EXPLANATION = (
     "same name, searched on that table's grid column, (6) grids are i*max/N for i=1..N resp. 1..2N, "
     "(7) single- and multi-point constructors agree. Not decided: numerical deviation < one class.")
 EXPLANATION += (' R-C07-9: the look-up methods are functions of the constructor-built tables and their arguments: they write no attribute of self (no cached class indices or results) and read none written by another look-up.')
+EXPLANATION += (' R-C07-10: no table cache shared between Binned objects under a key that leaves out something the tables depend on (bin count), no caching decorator / unreset memo attribute on the class (memo rule, built-in positive examples).')
 EXPLANATION += (' R-C07-8: the look-up tables are built once in the constructor and never re-ordered afterwards.')
 ASSUMPTIONS = [
     "numpy/pandas searchsorted(side='left') returns p with a[p-1] < v <= a[p] on an ascending array",
@@ -330,6 +331,12 @@ def run(ctx):
     # ---------------------------------------------------------- R-C07-8: tables are built once, never replaced or re-ordered
     ctx.rule("R-C07-8", floor=4, what="look-up tables are created by DataFrame construction only and never re-ordered afterwards")
     tables_fixed(ctx, ci)
+
+    # ---------------------------------------------------------- R-C07-10: no cache shared between wrappers under an incomplete key
+    ctx.rule("R-C07-10", floor=1, what="tables cached across Binned objects are keyed by everything they are computed from (incl. the bin count)")
+    from .. import memo
+    memo.check_keyed_caches(ctx, prog, [ci])
+    memo.run_rule(ctx, classes=[ci])
 
     # ---------------------------------------------------------- R-C07-9: look-ups are functions of (tables, arguments)
     ctx.rule("R-C07-9", floor=4, what="look-up methods keep no per-call state: no write to self, no read of state written by another look-up")
